@@ -85,8 +85,8 @@ class GuardRun:
             for c in self.by_decl.get(d.id, []):
                 if c.op == "from_str":
                     ops.append("(from_str %s)" % (c.oracle if c.oracle else "none"))
-                elif c.op == "de":
-                    ops.append("(de %s)" % (c.oracle if c.oracle else "none"))
+                elif c.op in ("de", "de_json", "de_ron", "de_mp"):
+                    ops.append("(de %s)" % (c.oracle if c.oracle and c.oracle != "-" else "none"))
                 elif c.op in ("default", "arb_range", "msgs"):
                     ops.append("(%s)" % c.op)
                 elif c.op == "arb":
@@ -142,8 +142,8 @@ class GuardRun:
         for d, ops, line in sample:
             parts = []
             for c in ops:
-                if c.op in ("from_str", "de"):
-                    parts.append("(%s %s)" % (c.op, c.oracle if c.oracle else "none"))
+                if c.op in ("from_str", "de", "de_json", "de_ron", "de_mp"):
+                    parts.append("(%s %s)" % ("from_str" if c.op == "from_str" else "de", c.oracle if c.oracle and c.oracle != "-" else "none"))
                 elif c.op in ("default", "arb_range", "msgs"):
                     parts.append("(%s)" % c.op)
                 elif c.op == "arb":
